@@ -1,18 +1,313 @@
 // C04: drives the real services/attester/standard.Service through one observed Attest call per case,
 // preceded by calls that make a chosen subset of its validators "already attested", with chosen
 // subsets account-less or left unsigned, over duties of 1-12 validators in 1-4 committees of
-// different sizes in shuffled order; prints the case for Check.C04.
+// different sizes in shuffled order; and (family "merged-duties") through one Attest call per slot
+// on the duty objects the real attester.MergeDuties builds from a beacon node's answer covering
+// several slots, in which the same committee index has different lengths at different slots;
+// prints the case for Check.C04.
 package c04
 
 import (
+	"context"
 	"fmt"
 	"os"
 	"sort"
 	"testing"
 
+	apiv1 "github.com/attestantio/go-eth2-client/api/v1"
+	"github.com/attestantio/go-eth2-client/spec/phase0"
+	"github.com/attestantio/vouch/services/attester"
+
 	. "verifharness/attenv"
 	. "verifharness/common"
 )
+
+// ApiDuty is one row of the beacon node's attester duties answer.
+type ApiDuty struct {
+	Slot uint64 `json:"slot"`
+	Val  uint64 `json:"val"`
+	Comm uint64 `json:"comm"`
+	Pos  uint64 `json:"pos"`
+	Len  uint64 `json:"len"`
+	Cas  uint64 `json:"cas"`
+}
+
+// Input is a history (flattened: spe, runs, trace_log, tags) plus, optionally, a beacon node answer
+// that is merged by the real MergeDuties; run i with FromApi[i] is given the merged duty object of
+// slot Runs[i].Duty.Slot (the other fields of Runs[i].Duty are not used then).
+type Input struct {
+	History
+	Api     []ApiDuty `json:"api,omitempty"`
+	FromApi []bool    `json:"from_api,omitempty"`
+}
+
+func (in Input) fromApi(i int) bool { return i < len(in.FromApi) && in.FromApi[i] }
+
+func (in Input) usesApi() bool {
+	for i := range in.Runs {
+		if in.fromApi(i) {
+			return true
+		}
+	}
+	return len(in.Api) > 0
+}
+
+// runInput drives the real code: MergeDuties over the answer (when there is one), then the history.
+// It returns what was observed, the merged duties as read back through the accessors before any
+// call of Attest, and the history to print (runs from the api carry the observed merged duty).
+func runInput(t *testing.T, in Input) (Observed, []Duty, History) {
+	if !in.usesApi() {
+		return RunHistory(t, in.History), nil, in.History
+	}
+	var objs []*attester.Duty
+	var merged []Duty
+	mergeProblem := ""
+	obs := RunHistoryWithDuties(t, in.History, func(ctx context.Context) ([]*attester.Duty, []bool) {
+		rows := make([]*apiv1.AttesterDuty, len(in.Api))
+		for i, a := range in.Api {
+			rows[i] = &apiv1.AttesterDuty{Slot: phase0.Slot(a.Slot), ValidatorIndex: phase0.ValidatorIndex(a.Val),
+				CommitteeIndex: phase0.CommitteeIndex(a.Comm), ValidatorCommitteeIndex: a.Pos, CommitteeLength: a.Len,
+				CommitteesAtSlot: a.Cas}
+		}
+		func() {
+			defer func() {
+				if r := recover(); r != nil {
+					mergeProblem = fmt.Sprintf("MergeDuties panicked: %v", r)
+				}
+			}()
+			ds, err := attester.MergeDuties(ctx, rows)
+			if err != nil {
+				mergeProblem = "MergeDuties failed: " + err.Error()
+				return
+			}
+			objs = ds
+		}()
+		// the order of the duties in MergeDuties' result is not C04's matter: by slot here
+		sort.SliceStable(objs, func(a, b int) bool { return objs[a].Slot() < objs[b].Slot() })
+		for _, d := range objs {
+			merged = append(merged, ReadDuty(d))
+		}
+		given := make([]*attester.Duty, len(in.Runs))
+		skip := make([]bool, len(in.Runs))
+		for i := range in.Runs {
+			if !in.fromApi(i) {
+				continue
+			}
+			for _, d := range objs {
+				if uint64(d.Slot()) == in.Runs[i].Duty.Slot {
+					given[i] = d
+					break
+				}
+			}
+			skip[i] = given[i] == nil // no duty for that slot: nothing to call Attest with
+		}
+		return given, skip
+	})
+	if mergeProblem != "" && obs.Problem == "" {
+		obs.Problem = mergeProblem
+	}
+	// Attest must leave the duty objects as they were (they may be handed to it again)
+	for k, d := range objs {
+		if fmt.Sprint(ReadDuty(d)) != fmt.Sprint(merged[k]) && obs.Problem == "" {
+			obs.Problem = fmt.Sprintf("Attest changed the duty of slot %d", merged[k].Slot)
+		}
+	}
+	hp := in.History
+	hp.Runs = append([]Run{}, in.Runs...)
+	for i := range hp.Runs {
+		if !in.fromApi(i) {
+			continue
+		}
+		d := Duty{Slot: in.Runs[i].Duty.Slot}
+		for _, m := range merged {
+			if m.Slot == d.Slot {
+				d = m
+				break
+			}
+		}
+		hp.Runs[i].Duty = d
+	}
+	return obs, merged, hp
+}
+
+func caseTerm(id uint64, in Input, hp History, obs Observed, merged []Duty) string {
+	api := make([]string, len(in.Api))
+	for i, a := range in.Api {
+		api[i] = Record("ad_slot", N(a.Slot), "ad_val", N(a.Val), "ad_comm", N(a.Comm), "ad_pos", N(a.Pos), "ad_len", N(a.Len), "ad_cas", N(a.Cas))
+	}
+	from := make([]string, len(in.Runs))
+	for i := range in.Runs {
+		from[i] = Bool(in.fromApi(i))
+	}
+	ms := make([]string, len(merged))
+	for i, m := range merged {
+		ms[i] = DutyTerm(m)
+	}
+	return Record("k_base", Term(id, hp, obs), "k_api", List(api), "k_from", List(from), "k_merged", List(ms))
+}
+
+// genMerged: a beacon node answer for 2-4 slots of one epoch in which the same committee indices
+// occur at every slot with lengths that differ from slot to slot (as on a real chain whenever the
+// number of active validators is not a multiple of the number of committees), merged by the real
+// MergeDuties; one Attest call per slot on the merged duty objects.
+func genMerged(r *Rand, traceLog bool) (Input, []string) {
+	in := Input{History: History{SPE: []uint64{4, 8, 32}[r.Intn(3)], TraceLog: traceLog}}
+	h := &in.History
+	fam := map[string]bool{"merged-duties": true}
+	epoch := uint64(r.Range(0, 60))
+	nslots := r.Range(2, 4)
+	span := h.SPE
+	if r.Chance(1, 4) {
+		span = 2 * h.SPE // the answer covers two epochs: a validator may have a duty in each
+		fam["merged-two-epochs"] = true
+	}
+	offs := map[uint64]bool{}
+	var slots []uint64
+	for len(slots) < nslots {
+		o := uint64(r.Intn(int(span)))
+		if !offs[o] {
+			offs[o] = true
+			slots = append(slots, epoch*h.SPE+o)
+		}
+	}
+	sort.Slice(slots, func(a, b int) bool { return slots[a] < slots[b] })
+	ncomm := r.Range(1, 3)
+	base := 6
+	if r.Chance(1, 8) {
+		base = 2043 // lengths around MAX_VALIDATORS_PER_COMMITTEE (2048), some beyond it
+		fam["merged-big-committees"] = true
+	}
+	size := make([][]uint64, nslots) // size[k][c]
+	for k := range size {
+		size[k] = make([]uint64, ncomm)
+		for c := range size[k] {
+			// 7, 8, 9 straddle a byte of the bitlist
+			size[k][c] = uint64(base + 3*c + r.Intn(3))
+		}
+	}
+	// the committee of the first validators of the first two slots has different lengths there
+	c0 := r.Intn(ncomm)
+	if size[0][c0] == size[1][c0] {
+		if r.Bool() {
+			size[1][c0]++
+		} else {
+			size[0][c0]++
+		}
+	}
+	n := r.Range(2, 10)
+	seen := map[uint64]bool{}
+	usedPos := map[[3]uint64]bool{}
+	valsAt := make([][]uint64, nslots)
+	var all []uint64
+	epochsOf := map[uint64][]uint64{} // validator -> epochs in which it has a duty already
+	for i := 0; i < n; i++ {
+		k, c := r.Intn(nslots), r.Intn(ncomm)
+		if i < 2 {
+			k, c = i, c0
+		}
+		v := uint64(r.Range(0, 40))
+		for seen[v] {
+			v = uint64(r.Range(0, 40))
+		}
+		if len(all) > 0 && span > h.SPE && r.Chance(1, 2) {
+			// a validator of another slot once more, if that slot is in another epoch
+			w := all[r.Intn(len(all))]
+			if !containsU(epochsOf[w], slots[k]/h.SPE) {
+				v = w
+				fam["merged-validator-in-two-epochs"] = true
+			}
+		}
+		seen[v] = true
+		epochsOf[v] = append(epochsOf[v], slots[k]/h.SPE)
+		sz := size[k][c]
+		pos := uint64(r.Intn(int(sz)))
+		if r.Chance(1, 4) {
+			pos = sz - 1 // the last position: beyond the end of any shorter bitlist
+			fam["merged-last-position"] = true
+		}
+		for tries := 0; usedPos[[3]uint64{uint64(k), uint64(c), pos}] && tries < 8; tries++ {
+			pos = uint64(r.Intn(int(sz)))
+		}
+		usedPos[[3]uint64{uint64(k), uint64(c), pos}] = true
+		in.Api = append(in.Api, ApiDuty{Slot: slots[k], Val: v, Comm: uint64(c), Pos: pos, Len: sz, Cas: uint64(ncomm)})
+		valsAt[k] = append(valsAt[k], v)
+		if !containsU(all, v) {
+			all = append(all, v)
+		}
+	}
+	// the beacon node's answer is in no particular order
+	for i := len(in.Api) - 1; i > 0; i-- {
+		j := r.Intn(i + 1)
+		in.Api[i], in.Api[j] = in.Api[j], in.Api[i]
+	}
+	var pre, noacct, unsigned []uint64
+	for _, v := range all {
+		switch r.Intn(12) {
+		case 0:
+			pre = append(pre, v)
+			fam["merged-skip-attested"] = true
+		case 1:
+			noacct = append(noacct, v)
+			fam["merged-skip-accountless"] = true
+		case 2:
+			unsigned = append(unsigned, v)
+			fam["merged-skip-unsigned"] = true
+		}
+	}
+	if len(pre) > 0 {
+		// an earlier call of the same epoch (duty built directly) marks them as already attested
+		pslot := (slots[r.Intn(nslots)]/h.SPE)*h.SPE + uint64(r.Intn(int(h.SPE)))
+		pd := Duty{Slot: pslot, Sizes: [][2]uint64{{9, 64}}}
+		for i, v := range pre {
+			pd.Vals = append(pd.Vals, v)
+			pd.Comms = append(pd.Comms, 9)
+			pd.Poss = append(pd.Poss, uint64(i))
+		}
+		h.Runs = append(h.Runs, Run{Duty: pd, Script: Script{Data: goodData(r, h.SPE, pslot), Accounts: sorted(pre)}, Timing: seqTiming(r, 0)})
+		in.FromApi = append(in.FromApi, false)
+	}
+	// the account manager knows the validators of all slots
+	var accts []uint64
+	for _, v := range all {
+		if !containsU(noacct, v) {
+			accts = append(accts, v)
+		}
+	}
+	if r.Chance(1, 3) {
+		accts = append(accts, 77, 78)
+	}
+	var order []int // the slots that have a duty, in slot order
+	for k := 0; k < nslots; k++ {
+		if len(valsAt[k]) > 0 {
+			order = append(order, k)
+		}
+	}
+	if r.Chance(1, 5) {
+		for i := len(order) - 1; i > 0; i-- {
+			j := r.Intn(i + 1)
+			order[i], order[j] = order[j], order[i]
+		}
+		fam["merged-slots-out-of-order"] = true
+	}
+	if r.Chance(1, 6) {
+		order = append(order, order[r.Intn(len(order))]) // the same duty object once more
+		fam["merged-redelivered"] = true
+	}
+	for _, k := range order {
+		s := Script{Data: goodData(r, h.SPE, slots[k]), Accounts: sorted(accts), Unsigned: sorted(unsigned)}
+		if r.Chance(1, 30) {
+			s.SubmitErr = true
+		}
+		h.Runs = append(h.Runs, Run{Duty: Duty{Slot: slots[k]}, Script: s, Timing: seqTiming(r, len(h.Runs))})
+		in.FromApi = append(in.FromApi, true)
+	}
+	var tags []string
+	for f := range fam {
+		tags = append(tags, f)
+	}
+	sort.Strings(tags)
+	return in, tags
+}
 
 // sorted: the elements in ascending order, each once (an account map has no validator twice)
 func sorted(xs []uint64) []uint64 {
@@ -61,9 +356,18 @@ func gen(r *Rand, traceLog bool) (History, []string) {
 	}
 	ncomm := r.Range(1, 4)
 	d := Duty{Slot: slot}
+	// 1/8: committees of realistic and of excessive size (MAX_VALIDATORS_PER_COMMITTEE is 2048: no
+	// attestation is made for a validator whose committee is said to be larger)
+	big := r.Chance(1, 8)
+	bigSizes := []uint64{128, 509, 2047, 2048, 2049, 4100}
+	bigOff := r.Intn(len(bigSizes))
 	for c := 0; c < ncomm; c++ {
 		// committee indices need not be 0..k-1; sizes all different (7, 8, 9 straddle a byte of the bitlist)
-		d.Sizes = append(d.Sizes, [2]uint64{uint64(2*c + r.Intn(2)), uint64(5 + 3*c + r.Intn(3))})
+		size := uint64(5 + 3*c + r.Intn(3))
+		if big {
+			size = bigSizes[(bigOff+c)%len(bigSizes)]
+		}
+		d.Sizes = append(d.Sizes, [2]uint64{uint64(2*c + r.Intn(2)), size})
 	}
 	sortedDuty := r.Chance(1, 3) // as MergeDuties delivers: by committee, then validator
 	type ent struct{ v, k uint64 }
@@ -144,6 +448,14 @@ func gen(r *Rand, traceLog bool) (History, []string) {
 	if ncomm > 1 {
 		fam["several-committees"] = true
 	}
+	if big {
+		fam["big-committees"] = true
+		for _, sz := range d.Sizes {
+			if sz[1] > 2048 {
+				fam["oversize-committee"] = true
+			}
+		}
+	}
 	if sortedDuty {
 		fam["duty-sorted"] = true
 	} else {
@@ -218,21 +530,27 @@ func TestC04(t *testing.T) {
 	n := EnvInt("VERIF_N", 800)
 	thorough := os.Getenv("VERIF_TIER") == "thorough"
 	type item struct {
-		h    History
+		in   Input
 		tags []string
 	}
 	var items []item
-	for _, h := range LoadInputs[History]("C04") {
-		items = append(items, item{h, append(append([]string{}, h.Tags...), "corpus")})
+	for _, in := range LoadInputs[Input]("C04") {
+		items = append(items, item{in, append(append([]string{}, in.Tags...), "corpus")})
 	}
 	rng := NewRand(Seed())
 	for i := 0; i < n; i++ {
+		if i%4 == 3 {
+			in, tg := genMerged(rng.Fork(), thorough && i%8 == 7)
+			items = append(items, item{in, tg})
+			continue
+		}
 		h, tg := gen(rng.Fork(), thorough && i%2 == 1)
-		items = append(items, item{h, tg})
+		items = append(items, item{Input{History: h}, tg})
 	}
 	for _, it := range items {
-		h := it.h
-		obs := RunHistory(t, h)
+		in := it.in
+		obs, merged, hp := runInput(t, in)
+		h := in.History
 		nt := false
 		for _, ev := range obs.Trace {
 			if ev.Kind == "submit" && len(ev.Atts) > 0 {
@@ -243,15 +561,15 @@ func TestC04(t *testing.T) {
 		for _, x := range it.tags {
 			col.Count("family:" + x)
 		}
-		col.Count(fmt.Sprintf("validators:%d", len(h.Runs[len(h.Runs)-1].Duty.Vals)))
-		col.Count(fmt.Sprintf("committees:%d", len(h.Runs[len(h.Runs)-1].Duty.Sizes)))
+		col.Count(fmt.Sprintf("validators:%d", len(hp.Runs[len(hp.Runs)-1].Duty.Vals)))
+		col.Count(fmt.Sprintf("committees:%d", len(hp.Runs[len(hp.Runs)-1].Duty.Sizes)))
 		if h.TraceLog {
 			col.Count("log:trace")
 		}
-		h.Tags = it.tags
+		in.Tags = it.tags
 		id := col.NextID()
-		col.Add(Case{Term: Term(id, h, obs), Key: fmt.Sprintf("%v", h.Runs) + fmt.Sprint(h.SPE), Nontrivial: nt, Tags: it.tags,
-			Sample: map[string]any{"input": h, "observed": obs}})
+		col.Add(Case{Term: caseTerm(id, in, hp, obs, merged), Key: fmt.Sprintf("%v%v%v", h.Runs, in.Api, in.FromApi) + fmt.Sprint(h.SPE), Nontrivial: nt, Tags: it.tags,
+			Sample: map[string]any{"input": in, "observed": map[string]any{"calls": obs, "merged": merged}}})
 	}
 	if err := col.Flush(); err != nil {
 		t.Fatal(err)
